@@ -1,6 +1,7 @@
 package absint
 
 import (
+	"regexp"
 	"fmt"
 	"go/ast"
 	"go/constant"
@@ -865,6 +866,17 @@ func (in *Interp) call(x *ast.CallExpr, st *State) []ev {
 		callee = in.Prog.CalleeName(info, x)
 	}
 	calleeObj = core.Callee(info, x)
+	// a function-valued variable that is just another name for a function value of the analysed function (a helper's
+	// parameter handed `produce`, a factory's parameter): the call is known by the name of what it holds
+	if v, isVar := calleeObj.(*types.Var); isVar && strings.HasPrefix(callee, "value:") {
+		if id := identOf(x.Fun); id != nil {
+			if res := in.eval(id, st); len(res) == 1 && res[0].st == st {
+				if sym, ok := res[0].v.(Sym); ok && sym.Name != v.Name() && plainIdentRE.MatchString(sym.Name) {
+					callee = "value:" + sym.Name
+				}
+			}
+		}
+	}
 	// receiver
 	var recvs []ev
 	if sel, ok := core.Unparen(x.Fun).(*ast.SelectorExpr); ok {
@@ -1146,3 +1158,5 @@ func negConst(v Val) bool {
 	c, ok := v.(Const)
 	return ok && c.V.Kind() == constant.Int && constant.Sign(c.V) < 0
 }
+
+var plainIdentRE = regexp.MustCompile(`^[A-Za-z_][A-Za-z0-9_]*$`)
